@@ -121,7 +121,7 @@ def sweep_cases(tier):
     for y in range(1, 256):
         for d, w in ((1001, 7), (5002, 15)):
             we = w + y - 128
-            if 1 <= we <= 64:
+            if 1 <= we:
                 for raw in (0, (1 << we) - 2 if we > 1 else 1, None if we > 1 else 0):
                     cases.append([33, None, [201000 + y, d, 201000], [raw], 1, False])
         cases.append([33, None, [202000 + y, 5002, 202000], [4321], 1, False])
@@ -133,15 +133,15 @@ def sweep_cases(tier):
         for rv in sorted({0, 1, -1, mag, -mag}):
             cases.append([33, None, [203000 + y, 5002, 203255, 5002, 203000, 5002], [rv, 777, 777], 1, False])
             cases.append([33, None, [203000 + y, 5002, 203255, 5002], [rv, 777], 2, True])
-    for y in range(1, 17):
+    for y in list(range(1, 17)) + [31, 32, 33, 63, 64, 65, 100, 128, 255]:
         for raw in (0, (1 << y) - 1, 1):
             cases.append([33, None, [204000 + y, 31021, 1001, 204000, 1001], [1, raw if (y == 1 or raw != (1 << y) - 1) else None, 5, 6], 1, False])
     for y in range(1, 21):
         cases.append([33, None, [205000 + y], [b'x' * y], 1, False])
         cases.append([33, None, [208000 + y, 1011, 208000, 1011], [b'y' * y, b'z' * 9], 1, False])
         cases.append([33, None, [208000 + y, 1011], [b'y' * y], 2, True])
-    for y in range(1, 65):
-        for raw in (0, 1 if y > 1 else 0, None if y > 1 else 1):
+    for y in range(1, 256):
+        for raw in (0, 1 if y > 1 else 0, None if y > 1 else 1, (1 << y) - 2 if y > 1 else 0):
             cases.append([33, None, [206000 + y, 54001, 1001], [raw, 3], 1, False])
             cases.append([33, None, [206000 + y, 1002, 1001], [raw, 3], 1, False])
     return cases, len(defs)
